@@ -1,12 +1,15 @@
 (* A small executable WHERE evaluator - basic graph patterns in a graph scope (default graph,
-   GRAPH <iri>, GRAPH ?g), joins of such blocks and a top-level UNION - used to instantiate the
+   GRAPH <iri>, GRAPH ?g), single-variable VALUES blocks, joins of such blocks and a top-level UNION;
+   the result is a SEQUENCE of solutions (UNION concatenates, VALUES repeats: duplicates are kept,
+   and every copy of a solution gets its own template blank nodes) - used to instantiate the
    parameter eval_where when the model and the Spec are run by the correspondence check.
    The property theorems do not depend on it (they hold for every evaluator). *)
 Require Export KV.Update.Model.
 
 Inductive pterm := PVar (v : N) | PConst (t : term) | PQuoted (s p o : pterm).   (* << s p o >> with variables *)
 Definition tpat := (pterm * pterm * pterm)%type.
-Inductive scope := SDefault | SConst (g : term) | SVar (v : N).
+Inductive scope := SDefault | SConst (g : term) | SVar (v : N)
+  | SValues (v : N) (rows : list term).     (* VALUES ?v { rows }: one solution per row, repeated rows repeat it *)
 Definition block := (scope * list tpat)%type.
 Definition gwhere := list (list block).      (* UNION of joins of blocks; [[]] is the empty group *)
 
@@ -55,6 +58,8 @@ Definition eval_block (D : dataset) (sols : list solution) (b : block) : list so
                            | None => []
                            | Some sol' => eval_tps (snd b) (in_graph (Some g) D) [sol']
                            end) (named_graphs D)) sols
+  | SValues v rows =>
+      flat_map (fun sol => filter_map (fun t => match_pt (PVar v) t sol) rows) sols
   end.
 
 Definition eval_join (D : dataset) (bs : list block) : list solution := fold_left (eval_block D) bs [[]].
@@ -67,7 +72,7 @@ Fixpoint pt_terms (p : pterm) : list term :=
   | PQuoted a b c => pt_terms a ++ pt_terms b ++ pt_terms c
   end.
 Definition block_terms (b : block) : list term :=
-  match fst b with SConst g => [g] | _ => [] end ++
+  match fst b with SConst g => [g] | SValues _ rows => rows | _ => [] end ++
   flat_map (fun tp => pt_terms (fst (fst tp)) ++ pt_terms (snd (fst tp)) ++ pt_terms (snd tp)) (snd b).
 Definition gwhere_terms (w : gwhere) : list term := flat_map (flat_map block_terms) w.
 
